@@ -87,7 +87,26 @@ def run_gate(ctx):
             if op in ("Gt", "Ge"):
                 pass
             rels.append((op, l, r, x["sp"]))
-    late = [t for t in rels if "timestamp" in t[1] + t[2] and "effective_wm" in t[1] + t[2] and "allowed_lateness" not in t[1] + t[2]]
+    # the watermark local is found by role: `if let Some(W) = <init>` whose W is compared with the event's timestamp; its
+    # initialiser must be the tracker's effective_watermark() (the minimum over the sources as it is NOW) — a cached copy
+    # (an Engine field) can be stale: recompute_effective legitimately LOWERS the minimum when a slower source first reports
+    wm_inits = {}
+    for x in H.walk(h["body"]):
+        if x.get("k") == "letcond" and "Option::Some" in H.pat_str(x["pat"]):
+            for nm in H.pat_binds(x["pat"]):
+                wm_inits[nm] = x["init"]
+    cand = [t for t in rels if "timestamp" in t[1] + t[2] and "allowed_lateness" not in t[1] + t[2]]
+    late = []
+    for t in cand:
+        other = t[2] if "timestamp" in t[1] else t[1]
+        if other in wm_inits:
+            late.append(t)
+            init = wm_inits[other]
+            from_tracker = any(y.get("k") == "mcall" and str(y.get("def", "")).endswith("PerSourceWatermarkTracker::effective_watermark") for y in H.walk(init))
+            if from_tracker:
+                ctx.ok("gate", "watermark-source", "the gate compares with tracker.effective_watermark()", site=t[3])
+            else:
+                ctx.violation("gate", "watermark-source", "the late-data gate compares the event's timestamp with `%s`, not with the tracker's effective_watermark(): a cached value does not follow the minimum when it moves down (a source with a larger out-of-order bound reporting for the first time), so events at or above the real watermark are dropped as late" % H.show(init)[:60], site=t[3])
     allow = [t for t in rels if "allowed_lateness" in t[1] + t[2]]
     if not late or not allow:
         ctx.anchor_lost("gate", "late-data gate comparisons not found in process_inner (late %d, allowed %d)" % (len(late), len(allow)))
